@@ -238,6 +238,8 @@ func getKc(ruleString string) (*base.KnowledgeContext, error) {
 
 	in := antlr.NewInputStream(ruleString)
 	lexer := parser.NewgengineLexer(in)
+	lexerErrListener := iparser.NewGengineErrorListener()
+	lexer.AddErrorListener(lexerErrListener)
 	stream := antlr.NewCommonTokenStream(lexer, antlr.TokenDefaultChannel)
 
 	kc := base.NewKnowledgeContext()
@@ -249,6 +251,10 @@ func getKc(ruleString string) (*base.KnowledgeContext, error) {
 	errListener := iparser.NewGengineErrorListener()
 	psr.AddErrorListener(errListener)
 	antlr.ParseTreeWalkerDefault.Walk(listener, psr.Primary())
+
+	if len(lexerErrListener.GrammarErrors) > 0 {
+		return nil, errors.New(fmt.Sprintf("%+v", lexerErrListener.GrammarErrors))
+	}
 
 	if len(errListener.GrammarErrors) > 0 {
 		return nil, errors.New(fmt.Sprintf("%+v", errListener.GrammarErrors))
